@@ -68,7 +68,11 @@ C13_Holds(cs) ==
 (* -------------------------- C16 / C07: dicts ---------------------------- *)
 \* key / value pools; texts are listed in byte order in KeyOrder so that the model can sort
 KeyPool == {"a", "ab", "a1", "1", "10", "9", "f1", "f2", "qx", "qy", "null", "sk1", "sk2"}
-ValPool == {"v1", "vq", "vs", "null"}
+ValPool == {"v1", "vq", "vs", "null", "vf", "vd0", "vd2"}
+\* (values that run over several lines - a function literal, a nested Dict - and a nested Dict that renders {}: combined
+\*  with three kinds of keys only, to keep the universe small)
+BigVals == {"vf", "vd0", "vd2"}
+BigValKeys == {"a", "qx", "f1"}
 \* a key that is itself a composite literal with a Dict inside (struct-literal keys): the inner Dict is rendered while the
 \* outer first pass is under way
 StructKey(t, f, v) == Stmt(<<Id(t), Grp("values", <<Dict(<<Pair(Stmt(<<Id(f)>>), Stmt(<<LitT(v)>>))>>, <<1>>)>>)>>)
@@ -95,6 +99,9 @@ ValCode(v, k) ==
     [] v = "vq"   -> Qual("x/d", "V" \o KeyNo(k))
     [] v = "vs"   -> Stmt(<<LitT(StrVal(k))>>)          \* a string literal full of structural characters
     [] v = "null" -> Stmt(<<NullT>>)
+    [] v = "vf"   -> Stmt(<<Kw("func"), Grp("params", <<>>), Grp("block", <<Stmt(<<Id("g" \o KeyNo(k)), Grp("call", <<>>)>>)>>)>>)
+    [] v = "vd0"  -> Stmt(<<Grp("values", <<Dict(<<Pair(Stmt(<<NullT>>), Stmt(<<LitT("1")>>))>>, <<1>>)>>)>>)      \* renders {} : not null
+    [] v = "vd2"  -> Stmt(<<Grp("values", <<Dict(<<Pair(Stmt(<<Id("m")>>), Stmt(<<LitT(KeyNo(k))>>)), Pair(Stmt(<<Id("n")>>), Stmt(<<LitT("2")>>))>>, <<1, 2>>)>>)>>)
 \* byte order of every key text that can occur ("1" < "a" < "ab" < "d.K" < "d1.K" < "f ()"; statement items are joined by one blank)
 KeyOrder == <<"1", "10", "9", "Circle {R:1}", "Square {A:2}", "a", "a1", "ab", "d.K", "d1.K", "f ()", "zz.K">>
 Rank(t) == CHOOSE i \in DOMAIN KeyOrder : KeyOrder[i] = t
@@ -117,7 +124,8 @@ DictCase(al, pairs) ==
              ELSE IF \E i, j \in DOMAIN pairs : pairs[i][1] = "f1" /\ pairs[j][1] = "f2" /\ pairs[i][2] # "null" /\ pairs[j][2] # "null" THEN "F6b" ELSE "",
    live |-> Cardinality({i \in DOMAIN pairs : pairs[i][1] # "null" /\ pairs[i][2] # "null"})]
 \* distinct keys, except that f1/f2 may both occur (identical text) and qx/qy (colliding base names)
-PairSeqs == {ps \in Seqs(KeyPool \X ValPool, MaxArity) : \A i, j \in DOMAIN ps : i # j => ps[i][1] # ps[j][1] \/ ps[i][1] = "null"}
+PairSeqs == {ps \in Seqs({kv \in KeyPool \X ValPool : kv[2] \in BigVals => kv[1] \in BigValKeys}, MaxArity) :
+               \A i, j \in DOMAIN ps : i # j => ps[i][1] # ps[j][1] \/ ps[i][1] = "null"}
 DictCases == {DictCase(al, ps) : al \in {"", "zz"}, ps \in PairSeqs}
 
 \* the property on the model: every live pair exactly once as key:value, in key order
@@ -129,11 +137,18 @@ C16_Holds(cs) ==
   LET pv == PiecesA(cs.alias, cs.tree)
       colons == Count(pv, ":")
       liveIdx == {i \in DOMAIN cs.pairs : cs.pairs[i][1] # "null" /\ cs.pairs[i][2] # "null"}
-      valText(i) == IF cs.pairs[i][2] = "v1" THEN KeyNo(cs.pairs[i][1]) ELSE IF cs.pairs[i][2] = "vs" THEN StrVal(cs.pairs[i][1]) ELSE "V" \o KeyNo(cs.pairs[i][1])
+      valText(i) == CASE cs.pairs[i][2] \in {"v1", "vd2"} -> KeyNo(cs.pairs[i][1])
+                      [] cs.pairs[i][2] = "vs" -> StrVal(cs.pairs[i][1])
+                      [] cs.pairs[i][2] = "vf" -> "g" \o KeyNo(cs.pairs[i][1])
+                      [] OTHER -> "V" \o KeyNo(cs.pairs[i][1])
       nested == Cardinality({i \in liveIdx : cs.pairs[i][1] \in {"sk1", "sk2"}})     \* a live struct-literal key has a colon of its own
+                + 2 * Cardinality({i \in liveIdx : cs.pairs[i][2] = "vd2"})         \* ... a nested Dict of two pairs has two
+      brace == CHOOSE j \in DOMAIN pv : pv[j].s = "{" /\ \A m \in 1..(j - 1) : pv[m].s # "{"     \* the outer literal's brace
   IN /\ colons = cs.live + nested                              \* one "key: value" per live pair
-     /\ \A i \in liveIdx : Count(pv, valText(i)) = 1            \* every live pair exactly once (its value names its key)
-     /\ (cs.live > 1) = (\E i \in DOMAIN pv : pv[i].c = "nl")   \* several pairs: one per line; one pair: inline
+     /\ \A i \in liveIdx : cs.pairs[i][2] # "vd0" => Count(pv, valText(i)) = 1      \* every live pair exactly once (its value names its key)
+     /\ Cardinality({i \in DOMAIN pv : pv[i].s = "{"}) = 1 + Cardinality({i \in liveIdx : cs.pairs[i][1] \in {"sk1", "sk2"}})
+                                                            + Cardinality({i \in liveIdx : cs.pairs[i][2] \in BigVals})  \* ({} is a value)
+     /\ (cs.live > 1) = (pv[brace + 1].c = "nl")               \* several pairs: one per line; one pair: inline, whatever its value looks like
      \* ordered by the rendered text of the keys (under THIS File's settings)
      /\ LET texts == KeyTexts(cs.alias, cs.pairs)
             ord == SelectSeq(cs.tree.items[5].items[1].order, LAMBDA i : texts[i] # "")
